@@ -1,6 +1,7 @@
 import SlicecVerif.Drv.C10
 import SlicecVerif.Drv.C11
 import SlicecVerif.Drv.C12
+import SlicecVerif.Drv.C02
 
 open Slicec Slicec.Drv
 
@@ -16,6 +17,8 @@ def main (args : List String) : IO UInt32 := do
     | "C10" => genC10 t s o
     | "C11" => genC11 t s o
     | "C12" => genC12 t s o
+    | "C02" => genC02 t s o
+    | "C09" => genC09 t s o
     | _ => IO.eprintln s!"unknown property {prop}"; return 2
     o.flush
     return 0
